@@ -469,7 +469,9 @@ def g_fd(rng, wf_texts, want_dir=None):
 
 
 def g_pfd_step(rng, wf_texts, flavour):
-    """flavour: ok | reject | multi"""
+    """flavour: ok | reject | multi | empty (a request without any application: withdraws every PFD)"""
+    if flavour == "empty":
+        return {"kind": "pfd", "apps": []}
     apps = []
     for _ in range(rng.choice([1, 1, 2, 3])):
         n = rng.choice([0, 1, 1, 2, 3, 4])
@@ -515,7 +517,7 @@ def gen_pfd_seqs(rng, tier, wf_texts):
         steps = []
         ids = []
         for _ in range(rng.choice([1, 2, 2, 3, 4])):
-            st = g_pfd_step(rng, wf_texts, rng.choice(["ok", "ok", "ok", "reject", "multi"]))
+            st = g_pfd_step(rng, wf_texts, rng.choice(["ok", "ok", "ok", "reject", "multi"] + (["empty", "empty"] if ids else [])))
             steps.append(st)
             ids += [a["id"] for a in st["apps"] if a["id"] is not None]
             for _ in range(rng.choice([0, 1, 2, 3])):
